@@ -232,6 +232,110 @@ def _(ctx):
     return (npshim.any(a), npshim.all(a), npshim.any(a, axis=0)), (np.any(x), np.all(x), np.any(x, axis=0))
 
 
+@case("broadcasting: extent 1 against extent n, (n,) against (m, n), scalar")
+def _(ctx):
+    n = int(RNG.integers(1, 4))
+    x, one = ints(n), ints(1)
+    M = ints(2 * n).reshape(2, n)
+    a, o, m = sym(ctx, x, "x"), sym(ctx, one, "one"), sym(ctx, M, "M")
+    return (a + o, o * a, m - a, a[:, None] * o if False else a * 2.0), (x + one, one * x, M - x, x * 2.0)
+
+
+@case("setitem on a slice / column, 2-d indexing")
+def _(ctx):
+    M = ints(6).reshape(2, 3)
+    col = ints(2)
+    m = sym(ctx, M, "M")
+    m2 = m.copy()
+    m2[:, 1] = sym(ctx, col, "col")
+    want = M.copy()
+    want[:, 1] = col
+    return (m2, m[1], m[:, 2], m.T), (want, M[1], M[:, 2], M.T)
+
+
+@case("basic slices: negative / open / clipped bounds")
+def _(ctx):
+    x = ints(RNG.integers(2, 7))
+    a = sym(ctx, x)
+    lo, hi = int(RNG.integers(-8, 8)), int(RNG.integers(-8, 8))
+    return (a[lo:hi], a[lo:], a[:hi], a[-1], a[0]), (x[lo:hi], x[lo:], x[:hi], x[-1], x[0])
+
+
+@case("integer-array (fancy) indexing on axis 0 and 1, two index arrays")
+def _(ctx):
+    M = ints(24).reshape(2, 3, 4)
+    i1, i2 = RNG.integers(0, 3, 3), RNG.integers(0, 4, 3)
+    m = sym(ctx, M, "M")
+    x = ints(5)
+    idx = RNG.integers(-5, 5, 4)
+    return (m[:, sym(ctx, i1, "i1"), sym(ctx, i2, "i2")], sym(ctx, x, "x")[sym(ctx, idx, "idx")], m[:, [2, 0]][:, :, [1, 3]]), (M[:, i1, i2], x[idx], M[:, [2, 0]][:, :, [1, 3]])
+
+
+@case("comparisons, boolean operators, astype(int16) wrap-around")
+def _(ctx):
+    x, y = ints(4), ints(4)
+    big = np.array([32767, 32768, 65537, -32769, 5], dtype=np.int64)
+    a, b = sym(ctx, x, "x"), sym(ctx, y, "y")
+    return ((a < b) & (a != 0), (a >= b) | ~(a == b), sym(ctx, big, "big").astype(np.int16)), ((x < y) & (x != 0), (x >= y) | ~(x == y), big.astype(np.int16))
+
+
+@case("reshape / flatten / transpose / atleast_1d / atleast_2d / column_stack")
+def _(ctx):
+    M = ints(6).reshape(2, 3)
+    m = sym(ctx, M, "M")
+    v = ints(3)
+    a = sym(ctx, v, "v")
+    mc = SArr.from_concrete(M)          # flatten needs a constant inner extent
+    return (mc.flatten(), m.T, npshim.atleast_2d(a), npshim.atleast_1d(SNum(z3.RealVal(2))), npshim.column_stack([a, a * 2.0])), \
+           (M.flatten(), M.T, np.atleast_2d(v), np.atleast_1d(2.0), np.column_stack([v, v * 2.0]))
+
+
+@case("in-place arithmetic and setitem with index / slice")
+def _(ctx):
+    x = ints(5)
+    a = sym(ctx, x).copy()
+    want = x.copy()
+    a += 2.0
+    want += 2.0
+    a[1] = 7.0
+    want[1] = 7.0
+    a[2:4] = 1.5
+    want[2:4] = 1.5
+    a *= 3.0
+    want *= 3.0
+    return a, want
+
+
+@case("zeros / full / arange / zeros_like / ones_like / empty shape")
+def _(ctx):
+    n = int(RNG.integers(1, 5))
+    ns = ctx.fresh_int("n", lo=0)
+    ctx.assume(ns.t == n, "conformance:value")
+    x = ints(n)
+    return (npshim.zeros((ns, 2)), npshim.full((ns,), 2.5), npshim.arange(ns), npshim.zeros_like(sym(ctx, x)), npshim.ones_like(sym(ctx, x, "y"))), \
+           (np.zeros((n, 2)), np.full((n,), 2.5), np.arange(n), np.zeros_like(x), np.ones_like(x))
+
+
+@case("average (weights) / outer / diag / delete")
+def _(ctx):
+    x, w = ints(4), ints(4, 1, 5)
+    a, b = sym(ctx, x, "x"), sym(ctx, w, "w")
+    M = ints(9).reshape(3, 3)
+    W = ints(3, 1, 5)
+    return (npshim.average(sym(ctx, M, "M2"), weights=sym(ctx, W, "W"), axis=0), npshim.outer(a, b), npshim.diag(sym(ctx, M, "M"))), \
+           (np.average(M, weights=W, axis=0), np.outer(x, w), np.diag(M))
+
+
+@case("array_equal / isscalar / len")
+def _(ctx):
+    x = ints(3)
+    y = x.copy()
+    if RNG.integers(0, 2):
+        y[1] += 1
+    from pyvc.builtins_shim import vc_len
+    return (npshim.array_equal(sym(ctx, x, "x"), sym(ctx, y, "y")), vc_len(sym(ctx, x, "z"))), (np.array_equal(x, y), len(x))
+
+
 @case("split at indices")
 def _(ctx):
     x = ints(6)
@@ -250,6 +354,12 @@ def run_case(name, fn, verbose):
         except core.Unsupported as e:
             out["skipped"] += 1
             out["detail"] = f"unsupported: {e}"
+            return
+        except core.VCSignal:
+            raise
+        except Exception as e:  # noqa: BLE001 - the contract raises where numpy returned a value
+            out["unsound"] += 1
+            out["detail"] = f"contract raises {type(e).__name__}: {e} where numpy returns a value"
             return
         cs = equal_clause(res, want)
         eq = z3.And(cs) if cs else z3.BoolVal(True)
